@@ -23,7 +23,8 @@ the models use.  The equivariance theorems are stated for the call with options 
 * `layerSpec_equivariant`, `layer_equivariant`    `g : SP d` (permute-and-flip form of the action)
 * `layer_equivariant_tge`                         every matrix accepted by `isSignedPerm`, the code's
                                                   action `tge` and transport rule `transport`
-* `dispatch_transformed_call`, `layer_options_symmetric`
+* `dispatch_transformed_call`, `layer_options_symmetric`, `layer_equivariant_call` (end to end from
+  the layer's own arguments)
 * `layer_shift`                                   cyclic translations on toroidal axes
 -/
 namespace GinjaxVerif.C06
@@ -147,6 +148,31 @@ theorem layer_options_symmetric (mode : PadMode) (hm : mode.Symmetric) (torus : 
     (hst : ∀ j, stride j = 1) (hN : ∀ j, 0 < N j) (hld : ∀ j, 0 < ld j) (j : Fin d) :
     (ax j).Sym :=
   C01.paddingLiteral_symmetric mode hm torus N Mf stride rd ld ax h hst hN hld j
+
+/-- **C06 from the layer's own arguments.**  Start from what the code has: the padding argument
+(`mode`, the same on both sides of every axis and not distinguishing the axes), the flags and extents
+of the input, the filter extents, unit stride, the dilations (none of them distinguishing the axes `g`
+exchanges).  If the original call dispatches to `ax` (and the filter fits), then the call on `g·x`
+dispatches to some `ax'`, and with those options the block of every target type is the transformed
+block with its declared type — for every weight, bias and `μ` value. -/
+theorem layer_equivariant_call (g : SP d) (mode : PadMode) (hsym : mode.Symmetric)
+    (hind : mode.AxisIndep d) (torus : Fin d → Bool) (N M stride rd ld : Fin d → Nat)
+    (hM : ∀ i, M (g.σ i) = M i) (hst : ∀ j, stride j = 1)
+    (hrd : ∀ i, rd (g.σ i) = rd i) (hld : ∀ i, ld (g.σ i) = ld i)
+    (hN : ∀ j, 0 < N j) (hld0 : ∀ j, 0 < ld j)
+    (P : Params R d) (h : dispatch mode torus N M stride rd ld = some P.ax)
+    (hf : ∀ j, (P.ax j).Fits) (hinv : BankInv g (fun j => (P.ax j).M) P.bank) (x : MImg R d)
+    (hx : ∀ e ∈ x, e.2.dims = fun j => (P.ax j).N) :
+    ∃ ax', dispatch mode (fun i => torus (g.σ i)) (fun i => N (g.σ i)) M stride rd ld = some ax' ∧
+      ∀ (t : Ty) (n o : Nat) (i' : Pix d) (T : List (Fin d)), T.length = t.1 →
+        layerSpec { P with ax := ax' } (actMI g x) t o i' T
+          = (actBlock g t ⟨n, outDims P, layerSpec P x t⟩).val o i' T := by
+  refine ⟨pushAx g P.ax, dispatch_push g mode hind torus N M stride rd ld hM
+    (fun i => by rw [hst, hst]) hrd hld P.ax h, ?_⟩
+  intro t n o i' T hT
+  have hs : ∀ j, (P.ax j).Sym := fun j =>
+    C01.paddingLiteral_symmetric mode hsym torus N M stride rd ld P.ax h hst hN hld0 j
+  exact layerSpec_equivariant g P hs hf hinv x hx t n o i' T hT
 
 /-! ### cyclic translations -/
 
